@@ -646,6 +646,13 @@ pub(crate) fn run(
                         // Referenced group hasn't matched, so the backref doesn't match either
                         break 'fail;
                     }
+                    if lo > hi {
+                        // The group is being re-entered (e.g. a backref to a group inside
+                        // a repeated look-ahead): its start has been saved again but its end
+                        // is still from the previous iteration, so there is no consistent
+                        // capture to compare with.
+                        break 'fail;
+                    }
                     let ref_text = &s[lo..hi];
                     let ix_end = ix + ref_text.len();
                     if !matches_literal(s, ix, ix_end, ref_text) {
